@@ -71,6 +71,26 @@ def run (ctx):
     c = [c for c in q.node_calls(app[0])][0]
     ctx.ob('R-AGREE', tcl, "functions are queued at the tail (submission order)", call_name(c) == 'append', norm(c)[:50] if call_name(c) == 'append' else "`%s` does not append at the tail: functions of one thread run out of submission order" % norm(c)[:50], (mod, c), 'D2')
     ctx.ob('R-EFFECT', tcl, "every call-later wakes the task", g.postdominates(png, app[0]), "ping on every path after the append", tcl, 'D2')
+  # the wake-up primitive itself: every ping() puts a byte into the pipe/socket; the only thing it may consult first is whether
+  # the module it writes with still exists (interpreter shutdown) - never state of the pinger, which the reader side changes concurrently
+  um = repo.mod('lib.util'); mp = um.funcs.get('make_pinger')
+  n_ping = 0
+  if mp is not None:
+    ctx.analysed(mp)
+    for cd in [x for x in ast.walk(mp.node) if isinstance(x, ast.ClassDef)]:
+      for pm in [x for x in cd.body if isinstance(x, ast.FunctionDef) and x.name == 'ping']:
+        pg = q.cfg_of(pm)
+        wr = pg.nodes_with_call(lambda c: (call_name(c) == 'write' and norm(c.func.value) == 'os') or (call_name(c) in ('send', 'sendall') and norm(c.func.value).startswith('self.')))
+        n_ping += len(wr)
+        if not wr:
+          ctx.bad('R-EFFECT', um.short + ':make_pinger.' + cd.name + '.ping', "ping() writes a wake-up byte", "no write in ping()", (um, pm), 'D2'); continue
+        for w_ in wr:
+          stateful = [f_ for f_ in q.fact_strs(pg, w_) if 'self.' in f_]
+          ctx.ob('R-DOM', um.short + ':make_pinger.' + cd.name + '.ping', "ping() writes a wake-up byte on every call, whatever the pinger's state", not stateful,
+                 "write guarded only by %s" % (q.fact_strs(pg, w_) or 'nothing') if not stateful else
+                 "the write is skipped depending on `%s`, state that the reading side resets concurrently: a ping between the reader's reset and its read is swallowed while the flag says a byte is pending - "
+                 "the scheduler is not woken and the hand-off waits for the polling timeout" % stateful[0], (um, w_.ast), 'D2')
+  ctx.floor('pinger write sites', n_ping, 2)
   g = q.cfg_of(trun)
   pong = g.nodes_with_call(lambda c: call_name(c) == 'pongAll')
   pops = g.nodes_with_call(lambda c: call_name(c) in ('popleft', 'pop') and norm(c.func.value) == 'self._calls')
@@ -162,6 +182,38 @@ def run (ctx):
   si = syt.methods.get('__init__'); srn = syt.methods.get('run'); en = syn.methods.get('__enter__'); exi = syn.methods.get('__exit__')
   if not all((si, srn, en, exi)): raise AnalysisError("SyncTask/Synchronizer methods vanished")
   for f in (si, srn, en, exi): ctx.analysed(f)
+  # the synchroniser counts nested entries without a lock of its own: that is sound only because each thread gets its own instance
+  sy = repo.cls(RC, 'Scheduler').methods.get('synchronized')
+  if sy is not None:
+    ctx.analysed(sy); sgr = q.cfg_of(sy); schc = repo.cls(RC, 'Scheduler')
+    def attr_inits (attr):
+      return [v for m_ in schc.methods.values() for t, v, st, k in q.stores_in(m_.node) if isinstance(t, ast.Attribute) and t.attr == attr and norm(t.value) == 'self' and v is not None]
+    def is_tls (e):
+      """e reads a threading.local() kept on the scheduler"""
+      for x in ast.walk(e):
+        if isinstance(x, ast.Attribute) and norm(x.value) == 'self':
+          iv_ = attr_inits(x.attr)
+          if iv_ and all(isinstance(v, ast.Call) and norm(v.func) in ('threading.local', 'local') for v in iv_): return True
+      return False
+    verdicts = []
+    for rn in [n for n in sgr.nodes if n.kind == 'return' and n.ast.value is not None]:
+      rv = rn.ast.value
+      origins = [(None, 'expr', rv)] if not isinstance(rv, ast.Name) else q.provenance(sgr, rn, rv.id)
+      for d_, kind, val in origins:
+        if val is None: verdicts.append(('?', kind)); continue
+        if isinstance(val, ast.Call) and call_name(val) == 'Synchronizer': verdicts.append(('fresh', norm(val)))
+        elif is_tls(val): verdicts.append(('tls', norm(val)))
+        elif isinstance(val, ast.Attribute) and norm(val.value) == 'self' and any(isinstance(v, ast.Call) and call_name(v) == 'Synchronizer' for v in attr_inits(val.attr)):
+          verdicts.append(('shared', norm(val)))
+        else: verdicts.append(('?', norm(val)))
+    shared = [v for k_, v in verdicts if k_ == 'shared']
+    if shared:
+      ctx.bad('R-OWN', sy, "each thread gets a synchroniser of its own", "synchronized() hands out `%s`, one Synchronizer stored on the scheduler and shared by all threads: its entry counter and its sync task are "
+              "updated without a lock, so two foreign threads entering at the same time share one handshake - the second runs its section while cooperative tasks are running, or the scheduler stays parked for ever" % shared[0], sy, 'D4')
+    elif verdicts and all(k_ in ('fresh', 'tls') for k_, v in verdicts):
+      ctx.ob('R-OWN', sy, "each thread gets a synchroniser of its own", True, "origins: %s" % sorted(set(v for k_, v in verdicts)), sy, 'D4')
+    else:
+      ctx.undecided('R-OWN', sy, "each thread gets a synchroniser of its own", "origin of the returned object not recognised (%s)" % verdicts[:3], sy, 'D4')
   acq = sorted(norm(c.func.value) for c in calls_in(si.node) if call_name(c) == 'acquire')
   ctx.ob('R-EFFECT', si, "both handshake locks are held from construction", acq == ['self.inlock', 'self.outlock'], "acquired: %s" % acq, si, 'D4')
   g = q.cfg_of(srn)
